@@ -1266,6 +1266,39 @@ pub fn c10_failed_write_frees_slot(rec: &mut Rec, rng: &mut Rng, requests: usize
     sim.w.teardown();
 }
 
+/// at capacity, ONE readiness batch carries the hang-up of a client with nothing in flight and a complete request of
+/// another client: the departed connection is released by that very poll, so the client that connects next is accepted
+pub fn c10_close_and_request_in_one_batch(rec: &mut Rec, rng: &mut Rng) {
+    rec.case("capacity-close-and-request-in-one-batch");
+    rec.nontrivial();
+    let mut cfg = Cfg::base("C10");
+    cfg.max_clients = 13;
+    let mut sim = Sim::new(rec, cfg);
+    for _ in 0..10 {
+        sim.connect(rec);
+        sim.poll(rec);
+    }
+    sim.w.close(rec, 0);
+    sim.send_next(rec, rng, 1);
+    while !sim.plans[1].outq.is_empty() {
+        sim.send_next(rec, rng, 1);
+    }
+    sim.poll(rec);
+    let conns = sim.w.server_fds().len().saturating_sub(2);
+    if conns != 9 {
+        rec.oracle_fail("C10", &format!("a client with nothing in flight left and another one sent a request (one batch): after the poll the server holds {} connections, expected 9", conns), &sim.w.log);
+    }
+    let y = sim.connect(rec);
+    sim.poll(rec);
+    sim.w.client_read(rec, y);
+    if !sim.w.clients[y].accepted || sim.w.clients[y].refused {
+        rec.oracle_fail("C10", "9 connections open and nothing owed to the one that left: the next client was refused", &sim.w.log);
+    }
+    sim.settle(rec, rng);
+    common_checks(rec, &mut sim, "C10");
+    sim.w.teardown();
+}
+
 /// at capacity, several clients are already waiting in the listener's backlog when a client with an unanswered
 /// request leaves; the application answers between two polls. Each waiting client must end up either refused with
 /// the complete 503 message or accepted and served — never cut off with nothing (the batch of one poll can hold the
@@ -1339,6 +1372,7 @@ pub fn c10(rec: &mut Rec, rng: &mut Rng, thorough: bool) {
     for requests in 1..=2 {
         c10_failed_write_frees_slot(rec, rng, requests);
     }
+    c10_close_and_request_in_one_batch(rec, rng);
     for waiting in 1..=3 {
         for before in [false, true] {
             for leave in 0..(if thorough { 3 } else { 1 }) {
